@@ -164,6 +164,27 @@ def evaluator_model(ctx):
             raise MachineryError("ddnnf_eval_replay failed: %s" % r)
         for o in r["results"]:
             real[o["id"]] = o
+    # self-test of the binding: a recorded run with one value shifted by 0.01 must be rejected by the comparison with TLC's fractions
+    probe = next((c for c in cases[:nexp] if c["model"]["pc"] != "inconsistent" and c["model"]["defined"] == 1 and c["model"]["results"]), None)
+    if probe is not None:
+        o = dict(real[probe["id"]])
+        if o.get("results"):
+            o["results"] = [o["results"][0] + 0.01] + list(o["results"][1:])
+            before = len(ctx.violations)
+            known_before = dict(ctx.known_hits)
+
+            class _Probe:
+                def __init__(self):
+                    self.hits = 0
+
+                def violation(self, sig, detail, case):
+                    self.hits += 1
+            pr = _Probe()
+            m = probe["model"]
+            _judge_real(pr, probe, o, {"zero": False, "expected": m["results"], "defined": True, "pe": m["pev"][0] if m["pev"] else [1, 1]})
+            if pr.hits == 0:
+                raise MachineryError("self-test: a corrupted evaluator result was accepted")
+            cov["selftest_corrupted_run_rejected"] = True
     drift = 0
     # (1) behaviours TLC explored: the model's values are the weighted-model-count ratios (ResultsCorrect was checked on them)
     for c in cases[:nexp]:
